@@ -39,6 +39,7 @@ def implementsDoc : Rule → Doc → Kind → Bool
   | .concat, .concat, .list => true
   | .tagsFresh, .combine, .tags => true
   | .tagsInPlace, .combine, .tags => true      -- same VALUES (it fails C31_pure, not this)
+  | .appendInPlace, .concat, .list => true     -- same VALUES (it fails C31_pure, not this)
   | _, _, _ => false
 
 theorem over_eq_combined (x y : Option Tags) (k : String) :
@@ -92,8 +93,9 @@ theorem C31_no_setting_dropped : ∀ fs ∈ table, (docOf fs).isSome = true → 
 theorem C31_table_layering : ∀ fs ∈ table, ∀ d, docOf fs = some d → implementsDoc fs.rule d fs.kind = true := by
   decide
 
-/-- no statement writes through a map of an input (the pre-repair tag merge is `tagsInPlace`) -/
-theorem C31_table_no_inplace : ∀ fs ∈ table, fs.rule ≠ .tagsInPlace := by decide
+/-- no statement writes through a map or a slice of an input (the pre-repair tag merge is
+`tagsInPlace`; `result.X = append(a.X, b.X...)` is `appendInPlace`) -/
+theorem C31_table_no_inplace : ∀ fs ∈ table, writesInput fs.rule = false := by decide
 
 /-! ## Field-wise layering -/
 
@@ -203,11 +205,41 @@ example (h : Heap) : ∀ fs ∈ table, RefOK h fs.kind (rget rzero fs.name) ∧ 
   rw [this]
   cases fs.kind <;> simp [RefOK]
 
+/-- **Inputs read the same after the call** (what `C31_pure` means for a caller): a
+well-formed input denotes the same configuration in the heap the call returns. -/
+theorem C31_inputs_unchanged (h : Heap) (a b x : RConfig)
+    (hx : ∀ fs ∈ table, RefOK h fs.kind (rget x fs.name)) :
+    deref table (mergeH table h a b).1 x = deref table h x :=
+  deref_keeps table (mergeHLoop_keeps table C31_table_no_inplace h a b []) x hx
+
+/-- **Results do not change afterwards**: a configuration returned by `MergeConfig` denotes
+the same value after ANY later `MergeConfig` call — in particular another merge of the same
+first argument (`merge(base,b)` then `merge(base,c)`), whatever that later call's arguments. -/
+theorem C31_results_stable (h : Heap) (a b c d : RConfig)
+    (hin : ∀ fs ∈ table, RefOK h fs.kind (rget a fs.name) ∧ RefOK h fs.kind (rget b fs.name)) :
+    deref table (mergeH table (mergeH table h a b).1 c d).1 (mergeH table h a b).2 =
+      deref table (mergeH table h a b).1 (mergeH table h a b).2 :=
+  deref_keeps table (mergeHLoop_keeps table C31_table_no_inplace _ c d []) _
+    (mergeH_result_refok table C31_table_names_nodup h a b
+      (fun fs hfs => ⟨C31_table_compat fs hfs, C31_table_no_inplace fs hfs, (hin fs hfs).1, (hin fs hfs).2⟩))
+
 /-- Regression witness: with the pre-repair statement shape (`tagsInPlace`) the call writes
 `b`'s tags into `a`'s map. -/
 theorem C31_pure_inplace_counterexample :
     (mergeH [⟨"Tags", .tags, .tagsInPlace⟩] [.tags [("a", "1")], .tags [("b", "2")]]
         [("Tags", .ref (some 0))] [("Tags", .ref (some 1))]).1[0]? = some (.tags [("a", "1"), ("b", "2")]) := by
+  decide
+
+/-- Witness for `result.X = append(a.X, b.X...)` (`appendInPlace`, seeded mutation C31-b): the
+same base merged twice — the second call rewrites the base's list object, and the first result,
+which shares it, now ends in the second call's entries. -/
+theorem C31_append_inplace_counterexample :
+    let t : List FieldSpec := [⟨"StartJoin", .list, .appendInPlace⟩]
+    let h : Heap := [.strs ["s"], .strs ["b"], .strs ["c"]]
+    let m1 := mergeH t h [("StartJoin", .ref (some 0))] [("StartJoin", .ref (some 1))]
+    let m2 := mergeH t m1.1 [("StartJoin", .ref (some 0))] [("StartJoin", .ref (some 2))]
+    deref t m1.1 m1.2 = [("StartJoin", .list ["s", "b"])] ∧
+    deref t m2.1 m1.2 ≠ deref t m1.1 m1.2 ∧ m1.1[0]? ≠ h[0]? := by
   decide
 
 end SerfProofs.C31
